@@ -6,11 +6,29 @@ NOTES = ("Solver-based checking of the real code. Exit codes: 0 holds within the
 ENGINES = [
     {"name": "symnp+shadow", "path": "engine/symnp.py, engine/shadow.py", "serves_properties": ["C04"],
      "kind_free_text": "the current source of _type_casting/_core/serde is recompiled into shadow modules whose numpy/mmap/open/os globals are shims over z3 bit-vector cells and z3 arrays; the real tensor code then runs on fully symbolic payloads, offsets and file contents"},
+    {"name": "hist (on zsym)", "path": "engine/hist.py, engine/irlib.py", "serves_properties": ["C01", "C06"],
+     "kind_free_text": "bounded edit histories over the real IR classes with symbolic operand selectors and payload ints; z3 decides path feasibility, every feasible path is explored and its witness re-executed natively (guard against proxy intolerance)"},
     {"name": "zsym", "path": "engine/zsym.py", "serves_properties": ["C04", "C07", "C10"],
      "kind_free_text": "execution of the real functions on z3 Int/Real/String proxies with re-execution DFS over branch decisions; property = SMT query per path"},
 ]
 NOT_APPLICABLE = {}
 CHECKS = {
+    "C01": dict(
+        engine="hist (on zsym)", level="other", design_ref="DESIGN.md section 4 / C01",
+        technique="symbolic execution (zsym/z3) of bounded edit histories over the real IR classes; invariant I(U) on every feasible path; per-path native re-execution",
+        text=("From 7 seed states (optional inputs, multi-output nodes, subgraph capture, two graphs, values with every combination of roles, values listed twice, initializers in two scopes, a cycle) "
+              "every public mutator of nodes, values, graphs and the three graph collections is driven with symbolic operand selectors and payload ints; z3 decides which paths are feasible and ALL are explored; "
+              "after the history the invariant I(U) (uses<->inputs, producer<->outputs, node.graph<->graph contents, role flags<->collections, initializer keys, no producer for inputs/initializers) must hold "
+              "whether calls returned or raised. Quick: histories of length 1; thorough: length 2."),
+        note="Trusted: z3; the proxies (every path is cross-checked by a native re-execution of its witness); the oracle uses public accessors only. Longer histories and larger states are outside the bound.",
+    ),
+    "C06": dict(
+        engine="hist (on zsym)", level="other", design_ref="DESIGN.md section 4 / C06",
+        technique="symbolic execution (zsym/z3) of bounded edit histories; post-condition on raising calls: public snapshot S(U) unchanged; per-path native re-execution",
+        text=("Same driver and alphabet as C01: the final call of every history is an arbitrary public mutator with symbolic operands (incl. the position of the offending element in multi-element arguments); "
+              "on every feasible path where it raises, the snapshot of every public accessor of every reachable object must equal the snapshot before the call."),
+        note="Trusted: z3; proxies cross-checked per path; snapshot = public accessors (names, connections, uses, ownership flags, collections, order, types, shapes, tensors).",
+    ),
     "C10": dict(
         engine="zsym (z3 strings) + shadow _core/_io", level="other", design_ref="DESIGN.md section 4 / C10",
         technique="symbolic execution of the real containment check, read entry points and load() over z3 strings with nondeterministic contract-constrained os stubs; SMT (sequence theory + EUF + LIA)",
